@@ -35,6 +35,33 @@ CHECKS = {
                      "each is replayed; TLC judges the clientbound order language, Login Success only after an honest response, routing only after Login Acknowledged and Client "
                      "Information, the status exchange, silent termination on deviations.",
                 note=CONN_NOTE),
+    "C09": dict(engine="wire", design="5 C09", technique="TLC evaluation of the reference codec Wire.tla over boundary-dense domains + replay of every exported vector into passage-packets + TLC trace validation against Wire's Encode/Decode",
+                text="TLC checks Decode(Encode(v))=v with full consumption, VarInt<=5 / VarLong<=10 bytes, shortest form and rejection of ordinals outside each enum for all 41 packet "
+                     "structs (base value, every field through its boundary domain, diagonals, products of neighbouring fields), VarInt/VarLong within +-300 of every 7-bit/byte/word "
+                     "boundary and the extremes; each vector is replayed (write_to_buffer, T::ID, read_from_buffer on the specification's bytes, write_/read_varint/varlong); TLC judges "
+                     "every recorded observation against Encode/Decode recomputed from the recorded input.",
+                note="Trusted: TLC; the abstraction table in harness/hx-core/src/wire.rs; text->UTF-8 transcription in lib/gen_wiredata.py. Placeholder unit packets = id + empty body; "
+                     "text components: TAG_String and one-entry string compounds; boundary-dense, not all 2^32/2^64 values (TLC cannot enumerate them); over-long VarInts are model drift only."),
+    "C13": dict(engine="ratelimiter", design="5 C13", technique="TLC exhaustive model checking of RateLimiter.tla (relative time, no time bound) + TLC simulation walks and seeded random histories run on the real RateLimiter under virtual time + TLC trace validation against RateLimiterProps.tla",
+                text="The sliding-window-counter design is checked exhaustively with no bound on time (ages capped where the algorithm cannot tell the difference): per-window bound, 2*limit per "
+                     "interval, idle re-admission, isolation from other keys and cleanup (shadow single-key limiter), tracked keys fresh. Walks through the model and random histories "
+                     "(1-16 keys, zero / sub-window / exactly-D / multiples / >4D steps) are run on the real limiter; TLC judges every recorded history with the property-level clauses "
+                     "(window starts defined from the attempts, decisions compared with an isolated instance, published gauge bounded by keys that attempted within 4D).",
+                note="Trusted: TLC; tokio's paused clock; the OpenTelemetry manual reader used to read the rate_limiter_size gauge. Window lengths are dyadic multiples of the tick so the "
+                     "f32 arithmetic of the code is exact; f32 rounding for other lengths is a numeric question this technique does not decide."),
+    "C18": dict(engine="routing", design="5 C18", technique="TLC model checking of Routing.tla over a finite domain + replay of exported scenarios through DynFilterAdapters/DynStrategyAdapter::from_config + TLC trace validation recomputing eligibility",
+                text="spec/Routing.tla (eligibility from rules, allow/block lists, host scope; acceptable choices per strategy) is checked by TLC; every explored scenario is exported as the "
+                     "serde configuration plus targets, player and host, replayed into adapters built from that configuration, and the recorded (filtered, chosen) is judged by TLC through "
+                     "Trace_Routing, which recomputes eligibility (ties under player-fill are all acceptable; unreadable counts admit both documented readings).",
+                note="Trusted: TLC; pattern / decimal-count / UUID tables generated by Python and re-checked against the Rust regex, u32 parser and uuid crate on every run. Sampled product of a "
+                     "~10^14 scenario space seeded by VERIF_SEED; the strategy-focus set is exhaustive. Filter order/multiplicity differences are model drift only (C03 covers list hand-over)."),
+    "C19": dict(engine="grpc", design="5 C19", technique="TLC model checking of GrpcBoundary.tla (conversions, error cases, exchange machine) + exhaustive script replay against the real gRPC adapters and an in-process tonic service generated from the repository's .proto files + TLC trace validation against the C19 clauses",
+                text="TLC checks FromWire(ToWire(t)) = t over 15 IPs x ports x metadata x identifiers, and the error cases over 49 textual host forms (IPv4 dotted; IPv6 compressed, full-length, "
+                     "upper-case, mapped, bracketed; host names; garbage) x ports {0, 1, 25565, 65535, 65536, 91101, 2^31-1, 2^32-1} x metadata with duplicate keys / Unicode. One script per "
+                     "exchange (discover lists up to 3; select with candidate lists up to 3; pick = echo, re-spelled candidate, foreign target, none, malformed) is played through the real "
+                     "GrpcDiscoveryAdapter / GrpcStrategyAdapter / GrpcStatusAdapter against recording mock services; TLC judges every recorded exchange.",
+                note="Trusted: TLC; the tonic server stubs generated from the repository's .proto files and the loopback transport; the host-form table (canonical IPs cross-checked with Python "
+                     "ipaddress). Not judged: DNS host names, zone ids and inet_aton spellings in Address.hostname; the protocol number and the status service are drift notes only."),
     "C10": dict(engine="conn", design="5 C10", technique="TLC model checking of two-connection histories (Conn.tla, MaxRounds=2) + replay presenting the stored bytes + TLC trace validation",
                 text="TLC enumerates two-connection histories (authenticate and get transferred; reconnect with exactly the stored bytes after a change of IP / age / secret); the "
                      "harness checks the issued cookie with an independent HMAC and generic JSON parsing; TLC judges issue conditions, contents, and acceptance on the next transfer.",
@@ -52,6 +79,14 @@ NOT_YET = {
 }
 
 ENGINES = [
+    {"name": "wire", "path": "lib/wire_check.py", "serves_properties": ["C09"],
+     "kind_free_text": "spec/Wire.tla checked by TLC (MC_Wire); vectors replayed by hx-core wire; observations judged by TLC (Trace_Wire.tla)"},
+    {"name": "ratelimiter", "path": "lib/rl_check.py", "serves_properties": ["C13"],
+     "kind_free_text": "spec/RateLimiter.tla exhaustive in TLC; walks + random histories run by hx-core rl; histories judged by TLC (Trace_RateLimiter.tla / RateLimiterProps.tla)"},
+    {"name": "routing", "path": "lib/routing_check.py", "serves_properties": ["C18"],
+     "kind_free_text": "spec/Routing.tla checked by TLC; scenarios replayed by harness/hx-app; observations judged by TLC (Trace_Routing.tla)"},
+    {"name": "grpc", "path": "lib/grpc_check.py", "serves_properties": ["C19"],
+     "kind_free_text": "spec/GrpcBoundary.tla checked by TLC; scripts replayed by harness/hx-grpc against in-process tonic mocks; exchanges judged by TLC (Trace_GrpcBoundary.tla)"},
     {"name": "conn", "path": "lib/conn_check.py", "serves_properties": ["C01", "C02", "C03", "C04", "C06", "C10"],
      "kind_free_text": "spec/Conn.tla + ConnProps.tla checked by TLC; behaviours exported and replayed by harness/hx-core (hx conn); recorded histories judged by TLC (Trace_ConnProps.tla)"},
 ]
